@@ -383,7 +383,13 @@ impl Srv {
 
   /// opens a connection; its server-side handler number is returned (sequential from 1)
   pub fn open(&mut self) -> usize {
-    let (a, b) = tokio::io::duplex(1 << 22);
+    self.open_cap(1 << 22)
+  }
+
+  /// like `open`, with a pipe of `cap` bytes in each direction (a small one makes the server's writes block as soon as
+  /// the client stops reading)
+  pub fn open_cap(&mut self, cap: usize) -> usize {
+    let (a, b) = tokio::io::duplex(cap);
     let cm = self.conn_mng.clone();
     let f = self.factory.clone();
     tokio::task::spawn_local(async move {
